@@ -7,8 +7,11 @@ Correspondence: the real client (`rodbus::verif::ClientSession` over the in-memo
 submitted through the public `Channel` API by harness subcommand `cenc`) against the model AND the
 Spec, both evaluated inside Coq (Model/ClientShow.v `run_enc`).
 
-A case is (framing 'T'|'R', kind 1|2|3|4|5|6|15|16, unit, start, count_or_value, values) with
-values = None | ['s', seed] (count values expanded from the seed on both sides) | ['l', [..]].
+A case is (framing 'T'|'R', kind 1|2|3|4|5|6|15|16, unit, start, count_or_value, values, literal) with
+values = None | ['s', seed] (count values expanded from the seed on both sides) | ['l', [..]];
+literal = 1 (reads only): the AddressRange is the struct literal `AddressRange { start, count }`
+(public fields, harness kind suffix `r`) instead of AddressRange::try_from - the library must
+validate it itself (finding F10, repaired by 3d39d18).
 """
 import vlib
 
@@ -25,27 +28,34 @@ NO_TX = ('CountOfZero', 'AddressOverflow', 'CountTooLargeForType', 'CountTooBigF
 
 
 def norm(c):
-    f, k, u, s, n, v = c
+    c = tuple(c)
+    if len(c) == 6:
+        c = c + (0,)
+    f, k, u, s, n, v, lit = c
     if v is not None:
         v = (v[0], tuple(v[1]) if v[0] == 'l' else int(v[1]))
         if v[0] == 'l':
             n = len(v[1])
-    return (f, int(k), int(u), int(s), int(n), v)
+    return (f, int(k), int(u), int(s), int(n), v, int(bool(lit)) if int(k) in READS else 0)
+
+
+def jcase(c):
+    return [c[0], c[1], c[2], c[3], c[4], (list(c[5]) if c[5] else None), c[6]]
 
 
 def line(c):
-    f, k, u, s, n, v = c
+    f, k, u, s, n, v, lit = c
     if v is None:
         vs = '-'
     elif v[0] == 's':
         vs = f's{v[1]}'
     else:
         vs = 'l' + ','.join(str(x) for x in v[1])
-    return f'{f} {k} {u} {s} {n} {vs}'
+    return f'{f} {k}{"r" if lit else ""} {u} {s} {n} {vs}'
 
 
 def to_coq(c, tx):
-    f, k, u, s, n, v = c
+    f, k, u, s, n, v, lit = c
     if v is None:
         vs = 'Seed 0 0'
     elif v[0] == 's':
@@ -70,18 +80,24 @@ def gen_cases(ctx, quick):
               ('T', 16, 255, 65413, 123, ('s', 1)), ('R', 16, 255, 65413, 123, ('s', 9)),
               ('T', 15, 1, 19, 10, ('l', (1, 0, 1, 1, 0, 0, 1, 1, 1, 0))),      # the standard's example: CD 01
               ('T', 1, 1, 0, 2000, None), ('T', 1, 1, 0, 2001, None), ('T', 3, 1, 0, 125, None), ('T', 3, 1, 0, 126, None),
-              ('T', 3, 1, 65535, 1, None), ('T', 3, 1, 65535, 2, None), ('T', 1, 1, 0, 0, None)]
+              ('T', 3, 1, 65535, 1, None), ('T', 3, 1, 65535, 2, None), ('T', 1, 1, 0, 0, None),
+              # F10: unvalidated struct literals
+              ('T', 1, 1, 0, 0, None, 1), ('T', 3, 1, 65535, 10, None, 1), ('R', 2, 1, 65535, 2, None, 1), ('R', 4, 1, 1, 65535, None, 1),
+              ('T', 1, 1, 0, 2001, None, 1), ('T', 3, 1, 65411, 125, None, 1), ('R', 1, 1, 63536, 2000, None, 1)]
     # boundary quantities x start edges x kinds x framings
     for f in 'TR':
         for k in READS:
             for n in BOUNDARY:
-                for s in starts_for(r, n):
-                    cases.append((f, k, r.choice(UNITS), s, n, None))
+                ss = starts_for(r, n)
+                if k in (2, 4) and quick:        # same code path as 1 / 3: a sample of the start edges
+                    ss = r.sample(ss, 3)
+                for s in ss:
+                    cases.append((f, k, r.choice(UNITS), s, n, None, r.randrange(2)))
         for k in (15, 16):
             for n in BOUNDARY + [65536, 65537, 70000]:
                 ss = starts_for(r, n)
                 if n > 300 and quick:
-                    ss = ss[:1] + r.sample(ss[1:], 3)
+                    ss = ss[:1] + r.sample(ss[1:], 3 if n <= 2100 else 1)
                 for s in ss:
                     seed = r.choice([0, 1, r.randrange(2, 2**31)]) if n <= 2100 or r.random() < 0.15 else r.choice([0, 1])
                     cases.append((f, k, r.choice(UNITS), s, n, ('s', seed)))
@@ -129,14 +145,14 @@ def gen_cases(ctx, quick):
         fit = min(65535, max(0, 65536 - n))
         s = r.randrange(65536) if sm < 0.3 else (max(0, min(65535, fit + r.randrange(-2, 3))) if sm < 0.7 else r.randrange(0, fit + 1) if fit else 0)
         seed = r.choice([0, 1, r.randrange(2, 2**31)]) if n <= 2100 or r.random() < 0.15 else r.choice([0, 1])
-        cases.append((f, k, u, s, n, ('s', seed) if k in (15, 16) else None))
+        cases.append((f, k, u, s, n, ('s', seed) if k in (15, 16) else None, r.randrange(2)))
     if not quick:
         # exhaustive count sweep (DESIGN.md section 6, C03 Corr.)
         for f in 'TR':
             for k in (1, 3, 15, 16):
                 for n in list(range(0, 2101)) + [65535]:
                     for s in (0, min(65535, max(0, 65536 - n))):
-                        cases.append((f, k, 1, s, n, ('s', 2 + n) if k in (15, 16) else None))
+                        cases.append((f, k, 1, s, n, ('s', 2 + n) if k in (15, 16) else None, n % 2))
     seen, out = set(), []
     for c in cases:
         c = norm(c)
@@ -159,15 +175,15 @@ def evaluate(ctx, cases):
     order = list(range(len(cases)))
     order.sort(key=lambda i: (i * 7919) % 104729)
     shuffled = []
-    for lo in range(0, len(order), 6400):        # bounded coqc memory: at most 400 cases per process
-        shuffled += ctx.coq_eval(REQS, 'run_enc', [to_coq(cases[i], txs[i]) for i in order[lo:lo + 6400]], case_type=CASE_TYPE, per_shard=250)
+    for lo in range(0, len(order), 9600):        # bounded coqc memory: at most 800 cases per process
+        shuffled += ctx.coq_eval(REQS, 'run_enc', [to_coq(cases[i], txs[i]) for i in order[lo:lo + 9600]], case_type=CASE_TYPE, per_shard=800)
     both = [None] * len(cases)
     for i, b in zip(order, shuffled):
         both[i] = b
     res = []
     for i, b, tx in zip(impl, both, txs):
         model, spec = b.split('|')
-        res.append((i, model, spec, tx))
+        res.append((i, model, model if spec == '=' else spec, tx))
     return res
 
 
@@ -179,7 +195,7 @@ def spec_ok(impl, spec):
 
 
 def why_outside(c):
-    f, k, u, s, n, v = c
+    f, k, u, s, n, v, lit = c
     if k in (5, 6):
         return 'in-limits'
     if n == 0:
@@ -194,7 +210,7 @@ def why_outside(c):
 
 
 def key_of(c, impl, spec):
-    fr = 'tcp' if c[0] == 'T' else 'rtu'
+    fr = ('range-literal.' if c[6] else '') + ('tcp' if c[0] == 'T' else 'rtu')
     w = why_outside(c)
     if spec == 'REJECT':
         return f'client.{KIND_NAME[c[1]]}.{w}.{fr}'
@@ -204,6 +220,13 @@ def key_of(c, impl, spec):
 
 
 def shrink_candidates(c):
+    for x in shrink_candidates6(c[:6]):
+        yield norm(tuple(x) + (c[6],))
+    if c[6]:
+        yield norm(tuple(c[:6]) + (0,))
+
+
+def shrink_candidates6(c):
     f, k, u, s, n, v = c
     if v is not None and v[0] == 's' and v[1] != 0:
         yield (f, k, u, s, n, ('s', 0))
@@ -212,6 +235,8 @@ def shrink_candidates(c):
         yield (f, k, 1, s, n, v)
     if s != 0:
         yield (f, k, u, 0, n, v)
+    if s not in (0, 65535):
+        yield (f, k, u, 65535, n, v)
     if k in (5, 6):
         for x in (0, 1, s // 2):
             if x != s:
@@ -224,12 +249,12 @@ def shrink_candidates(c):
     if v is not None and v[0] == 'l':
         lst = list(v[1])
         for i in range(len(lst)):
-            yield norm((f, k, u, s, n, ('l', lst[:i] + lst[i + 1:])))
+            yield (f, k, u, s, len(lst) - 1, ('l', tuple(lst[:i] + lst[i + 1:])))
         for i in range(len(lst)):
             if lst[i]:
-                yield norm((f, k, u, s, n, ('l', lst[:i] + [0] + lst[i + 1:])))
+                yield (f, k, u, s, n, ('l', tuple(lst[:i] + [0] + lst[i + 1:])))
         return
-    for x in sorted({LIMIT[k] + 1, LIMIT[k], 1, 8, 9, n // 2, n - 1, n - 8}):
+    for x in sorted({LIMIT[k] + 1, LIMIT[k], 0, 1, 2, 8, 9, n // 2, n - 1, n - 8}):
         if 0 <= x < n:
             yield (f, k, u, s, x, v)
 
@@ -245,7 +270,7 @@ def evaluate_each(ctx, cs):
     impl = [ctx.harness('cenc', [line(c)])[0] for c in cs]
     txs = [int(i.split(' ')[-1][:4], 16) if c[0] == 'T' and i.startswith('SENT ') and '+' not in i else 0 for c, i in zip(cs, impl)]
     both = ctx.coq_eval(REQS, 'run_enc', [to_coq(c, tx) for c, tx in zip(cs, txs)], case_type=CASE_TYPE)
-    return [(i,) + tuple(b.split('|')) + (tx,) for i, b, tx in zip(impl, both, txs)]
+    return [(i, b.split('|')[0], b.split('|')[0] if b.split('|')[1] == '=' else b.split('|')[1], tx) for i, b, tx in zip(impl, both, txs)]
 
 
 def run(ctx):
@@ -268,6 +293,7 @@ def run(ctx):
     ctx.oblige('harness-accepts-every-generated-case', not bad, f'{len(bad)} lines rejected by the harness parser, e.g. {bad[:2]}')
     n_model = n_spec = 0
     reported = set()
+    per_class = {}
     classes = {}
 
     def bump(name):
@@ -281,6 +307,8 @@ def run(ctx):
         bump(f'framing:{fr}')
         bump(f'result:{res}')
         bump(f'domain:{why_outside(c)}')
+        if c[1] in READS:
+            bump('range:' + ('struct-literal' if c[6] else 'try_from') + ('.invalid' if why_outside(c) in ('count=0', 'address-overflow') else '.valid'))
         if res == 'SENT':
             bump(f'sent:{KIND_NAME[c[1]]}.{fr}')
             max_len[c[0]] = max(max_len[c[0]], len(impl.split(' ')[1]) // 2)
@@ -295,24 +323,25 @@ def run(ctx):
         if not spec_ok(impl, spec):
             n_spec += 1
             key = key_of(c, impl, spec)
-            if key not in reported and len(reported) < 6:
+            cls = (why_outside(c), c[6], spec == 'REJECT')
+            if key not in reported and len(reported) < 10 and per_class.get(cls, 0) < 2:
                 reported.add(key)
+                per_class[cls] = per_class.get(cls, 0) + 1
                 small = c
                 if not ctx.replay:
-                    small = vlib.shrink_batch(c, lambda xs: fails_spec(ctx, xs), shrink_candidates, rounds=14, width=16)
+                    small = vlib.shrink_batch(c, lambda xs, w=why_outside(c): [bad and why_outside(norm(x)) == w for x, bad in zip(xs, fails_spec(ctx, xs))], shrink_candidates, rounds=14, width=16)   # stay in the same input class
                     si, sm, ss, _ = evaluate_each(ctx, [small])[0]
                 else:
                     si, sm, ss = impl, model, spec
                 key = key_of(small, si, ss)
-                what = (f'{KIND_NAME[small[1]]} unit={small[2]} start={small[3]} count/value={small[4]} values={small[5]} over {"TCP" if small[0] == "T" else "RTU"}: '
+                what = (f'{KIND_NAME[small[1]]}{" (AddressRange struct literal)" if small[6] else ""} unit={small[2]} start={small[3]} count/value={small[4]} values={small[5]} over {"TCP" if small[0] == "T" else "RTU"}: '
                         f'implementation `{si[:90]}` but the protocol Spec says `{ss[:90]}` ({why_outside(small)})')
-                ctx.violation(key, what, {'cases': [list(small[:5]) + [list(small[5]) if small[5] else None]], 'impl': si, 'spec': ss, 'model': sm,
-                                          'original_case': list(c[:5]) + [list(c[5]) if c[5] else None]})
+                ctx.violation(key, what, {'cases': [jcase(small)], 'impl': si, 'spec': ss, 'model': sm, 'original_case': jcase(c)})
         elif impl != model:
             n_model += 1
             if n_model <= 2:
                 ctx.violation('model-differs-from-impl', f'{line(c)}: impl `{impl[:80]}` model `{model[:80]}`',
-                              {'cases': [list(c[:5]) + [list(c[5]) if c[5] else None]], 'impl': impl, 'model': model, 'spec': spec}, no_failing_input=True)
+                              {'cases': [jcase(c)], 'impl': impl, 'model': model, 'spec': spec}, no_failing_input=True)
     if not quick and not ctx.replay:
         # same prefix of cases with every decode level switched on (logging paths execute): identical lines
         k = min(len(cases), 20000)
@@ -325,22 +354,16 @@ def run(ctx):
     if not ctx.replay:
         need = ['result:SENT', 'result:CountOfZero', 'result:AddressOverflow', 'result:CountTooLargeForType', 'result:CountTooBigForU16',
                 'result:CountTooBigForType'] + [f'sent:{KIND_NAME[k]}.{fr}' for k in KIND_NAME for fr in ('tcp', 'rtu')]
+        need += ['range:struct-literal.invalid', 'range:struct-literal.valid', 'range:try_from.invalid', 'range:try_from.valid']
         missing = [n for n in need if classes.get(n, 0) < 3]
         ctx.oblige('generator-reaches-expected-classes', not missing and max_len['T'] == 259 and max_len['R'] == 255,
                    f'missing={missing} max frame lengths={max_len}')
-        # observation (not judged): AddressRange has public fields, so a struct literal bypasses try_from
-        probe = ['T 1r 1 0 0 -', 'T 3r 1 65535 10 -', 'R 2r 1 65535 2 -']
-        try:
-            pr = ctx.harness('cenc', probe)
-        except vlib.HarnessError as e:
-            pr = [str(e)]
-        ctx.coverage['unvalidated_range_literal_probe'] = dict(zip(probe, pr))
     classes['max_frame_len_tcp'] = max_len['T']
     classes['max_frame_len_rtu'] = max_len['R']
     ctx.coverage.update({
         'evaluations': len(cases),
         'distinct_nontrivial': len({c for c in cases if c[1] in (5, 6) or c[4] > 0}),
-        'rule': 'cases (framing, kind, unit, start, count|value, values) from a seeded PRNG: F1 corpus, boundary quantities x start edges x 8 kinds x 2 framings, explicit value lists, random mixture'
+        'rule': 'cases (framing, kind, unit, start, count|value, values, range-is-struct-literal) from a seeded PRNG: F1/F10 corpus, boundary quantities x start edges x 8 kinds x 2 framings, explicit value lists, random mixture'
                 + ('' if quick else ', exhaustive count sweep 0..2100') + '; non-trivial = non-empty request; distinct by value. Each case runs the real Channel API + ClientLoop over the in-memory wire and is compared with model and Spec evaluated in Coq',
         'samples': [[line(c), r[0][:80]] for c, r in list(zip(cases, results))[:8]],
         'input_classes': classes,
